@@ -150,7 +150,7 @@ class Lang:
 def real_parse(text):
     """-> (is_ambiguous, error or None) from the real parser"""
     try:
-        tree = LarkParser().parser.parse(text)
+        tree = LarkParser().parse(text)
     except Exception as e:
         return (False, repr(e)[:200])
     amb = any(getattr(t, "data", None) == "_ambig" for t in tree.iter_subtrees())
@@ -481,7 +481,7 @@ def tree_vs_source(text):
     """-> '' if the component tree says what the text says, else what differs"""
     from csvpath.matching.lark_transformer import LarkTransformer
 
-    tree = LarkParser().parser.parse(text)
+    tree = LarkParser().parse(text)
     if any(getattr(t, "data", None) == "_ambig" for t in tree.iter_subtrees()):
         return "ambiguous"
     src = _source_leaves(tree)
@@ -522,6 +522,8 @@ def tree_equals_source(tier, cfg, shard, carve):
     lg.T["VARIABLE"] = regex2z3.rx(r"@" + word + r"(\." + word + r")?")
     lg.T["HEADER"] = regex2z3.rx(r"#(" + word + r"(\." + word + r")?|[0-9]+|\"[a-zA-Z][a-zA-Z0-9 _]*\")")
     lg.T["REFERENCE"] = regex2z3.rx(r"\$" + word + r"\.(variables|headers)\." + word)
+    # string literals carry a double blank (white space inside a literal is data)
+    lg.T["STRING"] = regex2z3.rx(r"\"[a-z]*  [a-z]*\"")
     lg.T["SIGNED_NUMBER"] = regex2z3.rx(r"(\+|\-)?([0-9]+\.[0-9]*|\.[0-9]+|[0-9]+)")  # no exponent notation (stated as outside)
     x = z3.String("x")
     when_sep = shard.get("when_sep", "1")
@@ -551,6 +553,14 @@ def tree_equals_source(tier, cfg, shard, carve):
             witness = {"match": [t_ for t_, _ in f], "text": text}
         try:
             diff = tree_vs_source(text)
+            if not diff and "  " in text:
+                # the same program with the double blank inside the literal made single: parsed in the same process,
+                # it must carry its own literal (white space inside strings, regexes and quoted names is data, not layout)
+                text2 = text.replace("  ", " ")
+                d2 = tree_vs_source(text2)
+                if d2:
+                    diff = "after parsing %r, the text %r: %s" % (text, text2, d2)
+                    text = text2
         except Exception as e:
             diff = "raised " + repr(e)[:300]
         checked += 1
@@ -566,3 +576,28 @@ def replay_tree_equals_source(args):
     except Exception as e:
         d = "raised " + repr(e)[:300]
     return (bool(d), f"{args['text']!r}: {d or 'tree equals source'}")
+
+
+QCH = "a. Z"
+
+
+def qpick(i):
+    return "" if i < 0 else QCH[i]
+
+
+@ob(
+    "C17",
+    "O2-quoted-name",
+    pre=["0 <= c0 < 4 and -1 <= c1 < 4 and -1 <= c2 < 4", "not (c1 < 0 and c2 >= 0)", "name_ok(q, 1)",
+         "(qpick(c0) + qpick(c1) + qpick(c2)).strip() != ''"],
+    post="_ == (qpick(c0) + qpick(c1) + qpick(c2), [q])",
+    bound="a quoted header name of 1-3 characters chosen by symbolic indexes over {letter, period, blank, capital} (a leading "
+    "period or blank included; not blanks only) followed by one qualifier: get_name_and_qualifiers returns the text between the quotes and the qualifier",
+    outside="longer quoted names",
+    encodes=["csvpath/matching/util/expression_utility.py:ExpressionUtility.get_name_and_qualifiers/_parse_quoted"],
+    tiers={"quick": {"timeout": 600}},
+)
+def quoted_name(c0: int, c1: int, c2: int, q: str) -> Tuple[str, List[str]]:
+    inner = qpick(c0) + qpick(c1) + qpick(c2)
+    a, qs = ExpressionUtility.get_name_and_qualifiers('"' + inner + '".' + q)
+    return (a, list(qs))
